@@ -371,10 +371,11 @@ func (gp *GenginePool) UpdatePooledRulesIncremental(ruleStr string) error {
 func (gp *GenginePool) ClearPoolRules() {
 	gp.updateLock.Lock()
 	defer gp.updateLock.Unlock()
-	gp.ruleBuilder = nil
+	//keep an (empty) master copy, so that later incremental updates and removals have something to work on
+	gp.ruleBuilder = builder.NewRuleBuilder(gp.ruleBuilder.Dc)
 	gp.clear = true
 	for i := 0; i < int(gp.max); i++ {
-		gp.rbSlice[i].Kc.ClearRules()
+		gp.rbSlice[i].Kc = gp.ruleBuilder.Kc
 	}
 }
 
